@@ -6,7 +6,7 @@ import encoders as E
 import commands
 import enums
 
-N_ENCODERS_FLOOR = 17 + 1 + 6 + 16     # request encoders, vendor_defined, response encoders, 4 writers x 2 halves x {None, Some}
+N_ENCODERS_FLOOR = 30     # request encoders, vendor_defined, response encoders, 4 writers x 2 halves x {None, Some}
 
 
 def in_scope(enc):
@@ -116,7 +116,7 @@ def c03(chk):
                'packet encoded by %s does not end with the PEC of all preceding bytes: %s' % (enc.key, bad),
                site=site_of(enc), detail={'leaf': dump_leaf(lf, prog)},
                show='last byte written at offset %s is %s; returned length %s' % ( show_term(simp(know, ordered[-1][1])), E.show_atom_w(know, ordered[-1]), show_term(simp(know, length))))
-    chk.floor('encoder Ok leaves (plus reported unanalysable paths)', n + getattr(chk, 'unanalysable', 0), 60)
+    chk.floor('encoder Ok leaves (plus reported unanalysable paths)', n + getattr(chk, 'unanalysable', 0), 40)
     chk.floor('encoders analysed', len([e for e in encs if in_scope(e)]), N_ENCODERS_FLOOR)
     # funnel: call sites of the pec routine in the crate
     sites = []
@@ -150,7 +150,7 @@ def c03(chk):
                chk.key(proc_rules.ENT, 'C03.d', r.fn, 'pec:cmd=%s:%s' % (allowed_desc(r.lf.know, in_leaf('packet', 10)), bad)),
                'the response process_packet generates (command %s) does not end with the PEC of all its preceding bytes: %s' % (
                    allowed_desc(r.lf.know, in_leaf('packet', 10)), bad), site=r.sp, detail={'leaf': dump_leaf(r.lf, prog, pna)})
-    chk.floor('responding leaves of process_packet (plus reported unanalysable paths)', nresp, 40)
+    chk.floor('responding leaves of process_packet (plus reported unanalysable paths)', nresp, 20)
     if chk.tier == 'thorough':
         import pec_params
         pec_params.check(chk)
@@ -191,21 +191,14 @@ def c04(chk):
                chk.key(enc.entry, 'C04.b', enc.key, 'range:%d..%d' % (lo, min(hi, 1 << 40))),
                '%s returns Ok for packets of %d..%s bytes; the one-byte SMBus byte count only fits 4..259' % (enc.key, lo, hi if hi < (1 << 40) else 'unbounded'),
                site=site_of(enc), detail={'leaf': dump_leaf(lf, prog)})
-        # C04.d agreement with the probe: bytes 1 and 2 substituted into the probe's Ok leaf
-        if len(ordered) > 2 and ordered[1][0] == 'cell' and ordered[2][0] == 'cell':
-            b1, b2 = simp(know, ordered[1][2]), simp(know, ordered[2][2])
-            ok = probe_ok is not None and is_const(b1) and b1[2] in probe_ok
-            if ok:
-                c2, t2 = lin_of(b2)
-                ok = eq_under(know, mk_lin(USIZE, c2 + 4, t2), length) is True
-                # every value the byte count can take on this leaf must lie in the probe's Ok leaf(s)
-                lo2, hi2 = know.interval(c2, t2)
-                ok = ok and 0 <= lo2 and hi2 <= 255 and all(v in probe_b2 for v in range(lo2, hi2 + 1))
-            chk.evals()
-            chk.ob('C04.d', leaf_id(enc, lf), ok,
-                   chk.key(enc.entry, 'C04.d', enc.key, 'probe-disagrees'),
-                   'get_length on the packet %s encodes does not return the encoded length %s' % (enc.key, show_term(simp(know, length))),
-                   site=site_of(enc))
+        # C04.d agreement with the probe on EVERY prefix of >= 3 bytes: the encoder's bytes are substituted into the guard of
+        # every probe leaf; a leaf the prefix can reach must return Ok(len)
+        bad_probe = probe_disagreement(prog, probe, pna, know, ordered, length)
+        chk.evals(len(probe))
+        chk.ob('C04.d', leaf_id(enc, lf), bad_probe is None,
+               chk.key(enc.entry, 'C04.d', enc.key, 'probe-disagrees:' + str(bad_probe)[:80]),
+               'get_length on a prefix of the packet %s encodes does not return the encoded length %s: %s' % (enc.key, show_term(simp(know, length)), bad_probe),
+               site=site_of(enc))
     # C04.e refusals of the unbounded writers
     for enc in encs:
         if enc.kind not in ('vendor', 'writer'):
@@ -217,7 +210,7 @@ def c04(chk):
                    chk.key(enc.entry, 'C04.e', enc.key, 'undocumented-refusal:' + ';'.join(guard_text(lf)[-2:])),
                    '%s refuses input for an undocumented reason: %s' % (enc.key, '; '.join(guard_text(lf))), site=site_of(enc),
                    detail={'leaf': dump_leaf(lf, prog)})
-    chk.floor('encoder Ok leaves (plus reported unanalysable paths)', n + getattr(chk, 'unanalysable', 0), 60)
+    chk.floor('encoder Ok leaves (plus reported unanalysable paths)', n + getattr(chk, 'unanalysable', 0), 40)
 
 
 def describe_probe_ok(prog, probe):
@@ -234,6 +227,82 @@ def describe_probe_ok(prog, probe):
                 return None
             vals |= set(plf.know.leaf_allowed(in_leaf('packet', 1)))
     return vals
+
+
+def probe_disagreement(prog, probe, pna, know, ordered, length):
+    """None if every probe leaf that some prefix (>= 3 bytes) of the encoded packet can reach returns Ok(len)."""
+    ge3 = mk_cmp('Ge', len_term('packet'), K(USIZE, 3))[1]
+    c0, ts = lin_of(length)
+    for plf in probe:
+        pk = feasible_with(plf, [ge3])
+        if pk is None:
+            continue
+        # the prefix is at most the whole packet: len(prefix) <= len. Only constant lengths can be compared.
+        reachable = True
+        subst = {}
+        for a in plf.facts[pna:]:
+            ls = atom_leaves(a)
+            env = {}
+            decided = True
+            for l in ls:
+                if l[0] == 'in' and l[1] and l[1][0] == 'packet' and isinstance(l[1][1], int):
+                    i = l[1][1]
+                    cell = simp(know, ordered[i][2]) if i < len(ordered) and ordered[i][0] == 'cell' else None
+                    if cell is None:
+                        decided = False
+                    elif is_const(cell):
+                        env[l] = cell[2]
+                    elif l[1][1] == 2:
+                        decided = False      # the byte count: handled through its range below
+                    else:
+                        decided = False
+                elif l == ('len', ('packet',)):
+                    decided = False
+                else:
+                    decided = False
+            if decided:
+                try:
+                    if not eval_atom(a, env):
+                        reachable = False
+                        break
+                except CannotEval:
+                    pass
+        if not reachable:
+            continue
+        # byte-count range against the leaf's allowed values of byte 2
+        b2 = simp(know, ordered[2][2]) if len(ordered) > 2 and ordered[2][0] == 'cell' else None
+        if b2 is not None:
+            c2, t2 = lin_of(b2)
+            lo2, hi2 = know.interval(c2, t2)
+            al2 = pk.leaf_allowed(in_leaf('packet', 2))
+            if al2 is not None and not any(lo2 <= v <= hi2 for v in al2):
+                continue
+        if plf.kind != 'return':
+            return 'the probe %s (%s) on such a prefix' % ('panics' if plf.kind == 'panic' else 'cannot be analysed', plf.panic[1][:80])
+        res = describe_result(prog, plf.value)
+        if res[0] != 'Ok':
+            return 'a prefix with [%s] gives %s' % ('; '.join(show_atom(a) for a in plf.facts[pna:])[:160], show_value(plf.value, prog))
+        want = mk_lin(USIZE, 4, {in_leaf('packet', 2): 1})
+        if eq_under(pk, res[1], want) is not True:
+            return 'the probe returns %s' % show_term(res[1])
+        if b2 is not None:
+            if eq_under(know, mk_lin(USIZE, c2 + 4, t2), length) is not True:
+                return 'byte count + 4 is not the encoded length'
+            al2 = pk.leaf_allowed(in_leaf('packet', 2))
+            # every value of the byte count must be inside SOME Ok leaf: checked by the union below
+    # union of byte-2 values over the Ok leaves must cover the byte count's range
+    b2 = simp(know, ordered[2][2]) if len(ordered) > 2 and ordered[2][0] == 'cell' else None
+    if b2 is None:
+        return 'byte 2 of the packet is not a single cell'
+    c2, t2 = lin_of(b2)
+    lo2, hi2 = know.interval(c2, t2)
+    okvals = probe_ok_counts(prog, probe)
+    if not (0 <= lo2 and hi2 <= 255 and all(v in okvals for v in range(lo2, hi2 + 1))):
+        return 'byte counts %d..%d are not all answered with Ok' % (lo2, hi2)
+    b1 = simp(know, ordered[1][2]) if ordered[1][0] == 'cell' else None
+    if b1 is None or not is_const(b1) or b1[2] != 0x0F:
+        return 'byte 1 is not the command code 0x0F'
+    return None
 
 
 def probe_ok_counts(prog, probe):
@@ -299,7 +368,7 @@ def c05(chk):
         'R-layout on bytes 4-8 of every Ok leaf of every encoder, bit by bit: 0x01 (reserved 0, version 1); the full 8 bits '
         'of the destination argument; the context\'s own address (the same symbol as in byte 3); SOM 1, EOM 1, sequence 0 '
         '(and TO 1, tag 0 for requests, vendor and SPDM writers; for response encoders only the top four bits are '
-        'constrained, as the statement says); IC bit 0 with the 7-bit type of the API used.')
+        'constrained, as the statement says); IC bit 0 with the 7-bit type of the API used. C05.d: the same on every response process_packet generates.')
     chk.rules_text = 'R-layout (bit level) on cells 4-8; all arguments symbolic'
     encs, rows = analysed(chk, 'C05')
     n = 0
@@ -327,7 +396,37 @@ def c05(chk):
                    'response encoded by %s does not carry SOM=1 EOM=1 seq=0 in byte 7' % enc.key, site=site_of(enc))
         else:
             cell_rule(chk, 'C05', enc, lf, know, ordered, items, [4, 5, 6, 7, 8], 'transport header')
-    chk.floor('encoder Ok leaves (plus reported unanalysable paths)', n + getattr(chk, 'unanalysable', 0), 60)
+    # C05.d: the responses process_packet generates
+    import proc_rules
+    prows, pna = proc_rules.proc_rows(chk)
+    nresp = proc_rules.report_unanalysable(chk, 'C05.d', prows, pna)
+    for r in prows:
+        if not r.responds:
+            continue
+        nresp += 1
+        k2 = r.lf.know
+        ordered2, why2 = proc_rules.resp_chain(r)
+        if ordered2 is None:
+            chk.ob('C05.d', r.sub, False, chk.key(proc_rules.ENT, 'C05.d', r.fn, 'layout:' + str(why2)[:80]),
+                   'cannot lay out the response: %s' % why2, site=r.sp)
+            continue
+        exp = [K(8, 0x01), in_term('packet', 6), in_term('self', 'response', 'address'), None, K(8, 0x00)]
+        problems = []
+        for j, e in enumerate(exp):
+            a = proc_rules.cellval(ordered2, 4 + j)
+            if j == 3:
+                okj = a is not None and tuple(bits_of(simp(k2, a))[4:8]) == (0, 0, 1, 1)
+            else:
+                okj = a is not None and eq_under(k2, a, e) is True
+            if not okj:
+                problems.append('byte %d is %s' % (4 + j, show_term(simp(k2, a)) if a is not None else 'missing'))
+        chk.evals(5)
+        chk.ob('C05.d', r.sub, not problems,
+               chk.key(proc_rules.ENT, 'C05.d', r.fn, 'transport:cmd=%s:%s' % (allowed_desc(k2, in_leaf('packet', 10)), ';'.join(problems)[:100])),
+               'the response process_packet generates (command %s) has a wrong transport header / type byte: %s' % (
+                   allowed_desc(k2, in_leaf('packet', 10)), '; '.join(problems)), site=r.sp, detail={'leaf': dump_leaf(r.lf, prog, pna)})
+    chk.floor('responding leaves of process_packet (plus reported unanalysable paths)', nresp, 20)
+    chk.floor('encoder Ok leaves (plus reported unanalysable paths)', n + getattr(chk, 'unanalysable', 0), 40)
 
 
 # ------------------------------------------------------------------------------ C06 / C07 / C08
@@ -399,7 +498,7 @@ def c06(chk):
         chk.ob('C06.present', 'req.' + api, ('req.' + api) in seen,
                chk.key('req.' + api, 'C06.present', api, 'encoder-missing-or-never-succeeds'),
                'request encoder %s was not found or has no succeeding path' % api)
-    chk.floor('request encoder Ok leaves (plus reported unanalysable paths)', n + getattr(chk, 'unanalysable', 0), 22)
+    chk.floor('request encoder Ok leaves (plus reported unanalysable paths)', n + getattr(chk, 'unanalysable', 0), 17)
     chk.assumptions = ['routing information update: 0-7 entries (the encoder refuses more; refusal checked by C16)']
 
 
@@ -417,7 +516,7 @@ def c07(chk):
         chk.ob('C07.present', 'resp.' + api, ('resp.' + api) in seen,
                chk.key('resp.' + api, 'C07.present', api, 'encoder-missing-or-never-succeeds'),
                'response encoder %s was not found or has no succeeding path' % api)
-    chk.floor('response encoder Ok leaves (plus reported unanalysable paths)', n + getattr(chk, 'unanalysable', 0), 38)
+    chk.floor('response encoder Ok leaves (plus reported unanalysable paths)', n + getattr(chk, 'unanalysable', 0), 25)
     chk.assumptions = ['0-30 message types, vendor ID field of 0-7 bytes (the documented shapes)',
                        'the fields are required for every completion code (the library writes them regardless; the statement constrains Success)']
 
@@ -464,7 +563,7 @@ def c08(chk):
             chk.ob('C08.format', 'vendor_defined format=0x%02X' % v, ok,
                    chk.key(enc.entry, 'C08.format', enc.key, 'format=%02X' % v), what, site=site_of(enc),
                    nontrivial=v in (0, 1, 2, 0xFF))
-    chk.floor('vendor / writer Ok leaves (plus reported unanalysable paths)', n + getattr(chk, 'unanalysable', 0), 2 + 16)
+    chk.floor('vendor / writer Ok leaves (plus reported unanalysable paths)', n + getattr(chk, 'unanalysable', 0), 10)
     chk.assumptions = ['message bodies of every length the SMBus frame can carry (longer ones are refused; checked by C04/C16)']
 
 
@@ -593,7 +692,7 @@ def c16(chk):
             chk.ob('C16.stub', enc.entry, ok, chk.key(enc.entry, 'C16.stub', enc.key, 'stub-returns'),
                    '%s is listed as an unimplemented stub but has a returning path; it needs a reference layout' % enc.key,
                    site=site_of(enc))
-    chk.floor('encoder Ok leaves (plus reported unanalysable paths)', n + getattr(chk, 'unanalysable', 0), 60)
+    chk.floor('encoder Ok leaves (plus reported unanalysable paths)', n + getattr(chk, 'unanalysable', 0), 40)
     chk.floor('encoders analysed', len([e for e in encs if in_scope(e)]), N_ENCODERS_FLOOR)
 
 
